@@ -77,6 +77,29 @@ func (h *Host) Recorder(name string) *object.Builtin {
 	})
 }
 
+// RecorderRet records like Recorder and returns its idx-th argument, so that
+// it can wrap a sub-expression and expose evaluation order.
+func (h *Host) RecorderRet(name string, idx int) *object.Builtin {
+	return object.NewBuiltin(name, func(ctx context.Context, args ...object.Object) object.Object {
+		ints, str := argInts(args)
+		h.record(name, ints, str)
+		if idx < len(args) {
+			return args[idx]
+		}
+		return object.Nil
+	})
+}
+
+// LogStrings renders the host log (without stamps) for comparisons.
+func (h *Host) LogStrings() []string {
+	evs := h.Events()
+	out := make([]string, len(evs))
+	for i, e := range evs {
+		out[i] = fmt.Sprintf("%s%v%s", e.Name, e.Args, e.Str)
+	}
+	return out
+}
+
 // Tick returns a builtin that counts calls (used to see whether script code is
 // still executing).
 func (h *Host) Tick() *object.Builtin {
